@@ -1,9 +1,10 @@
 #!/bin/bash
-# run every available benign patch through all checks; results in /tmp/benign_results/
-mkdir -p /tmp/benign_results
-for p in /tmp/seeded_out/b*/benign*.diff; do
+# usage: tools/benign_all.sh <worktree> <tag> <outdir> <patch>...   -- run benign patches through all checks
+WT="$1"; TAG="$2"; OUT="$3"; shift 3
+mkdir -p "$OUT"
+for p in "$@"; do
   tag=$(basename $(dirname $p))_$(basename $p .diff)
-  [ -f /tmp/benign_results/$tag.txt ] && continue
-  /verif/tools/try_benign.sh $p > /tmp/benign_results/$tag.txt 2>&1
+  [ -f "$OUT/$tag.txt" ] && continue
+  BENIGN_WT=$WT BENIGN_TAG=$TAG /verif/tools/try_benign.sh $p > "$OUT/$tag.txt" 2>&1
 done
-echo DONE > /tmp/benign_results/DONE
+echo DONE > "$OUT/DONE_$TAG"
